@@ -273,11 +273,12 @@ func (fr *Frame) intrinsic(fn *ssa.Function, args []Value, pc *Term, in ssa.Inst
 			return ex.nondet(fr, t, nm, pc, ex.constStrArg(args[1])), true
 		case "Assume":
 			c := args[0].(*VBV).T
-			ex.Assumes = append(ex.Assumes, ts.Implies(pc, c))
+			ex.Assumes = append(ex.Assumes, ts.Implies(ts.And(pc, ex.concPrefix()), c))
 			return nil, true
 		case "Assert":
 			c := args[0].(*VBV).T
 			label := ex.constStrArg(args[1])
+			pc = ts.And(pc, ex.concPrefix())
 			ex.Obls = append(ex.Obls, Obligation{Kind: "reach", Cond: pc, Label: label, Pos: ex.pos(in), Fn: fr.fn.String()})
 			ex.Obls = append(ex.Obls, Obligation{Kind: "assert", Cond: ts.And(pc, ts.Not(c)), Label: label, Pos: ex.pos(in), Fn: fr.fn.String()})
 			return nil, true
@@ -287,6 +288,7 @@ func (fr *Frame) intrinsic(fn *ssa.Function, args []Value, pc *Term, in ssa.Inst
 			return nil, true
 		case "Cover":
 			label := ex.constStrArg(args[0])
+			pc = ts.And(pc, ex.concPrefix())
 			ex.Obls = append(ex.Obls, Obligation{Kind: "reach", Cond: pc, Label: label, Pos: ex.pos(in), Fn: fr.fn.String()})
 			return nil, true
 		case "LenAny":
